@@ -38,8 +38,10 @@ class LinearScaling(object):
     """ Linear scaling with slope and intercept
     """
     def __init__(self, intercept, slope, input_source):
-        self.intercept = intercept
-        self.slope = slope
+        # Coefficients may be stored with an integer type, but are always applied in floating point
+        # so that integer data can't overflow when scaled
+        self.intercept = float(intercept)
+        self.slope = float(slope)
         self.input_source = input_source
 
     @staticmethod
